@@ -21,6 +21,7 @@ def run(prog, rep, tier):
     apply(rep, "S1", "every sub-expression context opens a scope", (s1[0], s1[1]), 10)
     import r_core
     apply(rep, "P2b", "the type profile that licenses pop_as's static_cast describes the real value types (abstract evaluation)", r_core.p2b(prog, tier), 2)
+    apply(rep, "P2c", "stack accessors never read outside the value vector", r_core.p2c(prog), 5)
     apply(rep, "Y4", "%destructor for owning semantic values", r_life.y4(prog), 3)
     apply(rep, "Y5", "no throw through bison/flex C frames", r_life.y5(prog), 2)
     maybe_mutants("C13", rep, tier)
